@@ -805,7 +805,15 @@ class Hist:
 
     def do_add_metabolites(self, a, op, env):
         ms = [_mk_met(d) for d in op["mets"]]
-        a.model.add_metabolites(ms[0] if op.get("single") and len(ms) == 1 else ms)
+        if op.get("twice"):
+            ms = ms + ms[:1]  # the same new object listed twice
+        try:
+            a.model.add_metabolites(ms[0] if op.get("single") and len(ms) == 1 else ms)
+        finally:
+            stray = [x.id for x in ms if x._model is a.model and not any(x is y for y in a.model.metabolites)]
+            if stray:
+                raise Violation("xref", {"what": "a metabolite object that is not in the model points at the model after add_metabolites",
+                                         "metabolites": stray}, culprit=op)
 
     def do_remove_metabolites(self, a, op, env):
         ms = [self.met(a, i) for i in op["ms"]]
@@ -855,10 +863,19 @@ class Hist:
             items.append({"none": None, "float": 7.5}[op["bad_tail"]])
         objs = {rid: a.model.reactions.get_by_id(rid) for rid in op["rs"] if a.model.reactions.has_id(rid)}
         specs = {rid: self._rxn_spec(env.pre, rid) for rid in objs if rid in env.pre.rxns}
+        genes_before = list(a.model.genes)
         if op.get("via") == "rxn" and len(items) == 1 and not isinstance(items[0], str):
             items[0].remove_from_model(remove_orphans=op.get("remove_orphans", False))
+        elif op.get("own_list"):
+            # the model's own list is the argument (it shrinks while the reactions are removed): op["rs"] names all reactions
+            a.model.remove_reactions(a.model.reactions, remove_orphans=op.get("remove_orphans", False))
+            self.stats["probe:remove_reactions_given_the_models_own_list"] += 1
         else:
             a.model.remove_reactions(items, remove_orphans=op.get("remove_orphans", False))
+        if not a.model._contexts:
+            stray = [g.id for g in genes_before if g._model is a.model and not any(g is h for h in a.model.genes)]
+            if stray:
+                raise Violation("xref", {"what": "a gene removed as an orphan still points at the model", "genes": stray}, culprit=op)
         if not a.model._contexts and not op.get("bad_tail"):
             for rid, o in objs.items():
                 if rid in specs:
@@ -938,6 +955,15 @@ class Hist:
                     if det is None:
                         raise Skip("no detached reaction")
                     d[det["obj"]] = c  # a reaction that is not in the model: the call fails part-way
+                elif op.get("foreign_keys") and len(self.actors) > 1:
+                    # the reaction object of ANOTHER live model (the original of this copy, say) stands for this model's reaction
+                    # of the same id - never for whatever reaction happens to have the same column number here
+                    others = [b for b in self.actors if b is not a and b.model.reactions.has_id(rid)]
+                    if others:
+                        d[others[op["foreign_keys"] % len(others)].model.reactions.get_by_id(rid)] = c
+                        self.stats["probe:objective_dict_keyed_by_foreign_reaction"] += 1
+                    else:
+                        d[self.rxn(a, rid)] = c
                 else:
                     d[self.rxn(a, rid)] = c
             m.objective = d
@@ -1822,6 +1848,8 @@ def gen_op(rng, H, sw):
         if inv and rng.random() < 0.5:
             ms[-1]["id"] = "bad met"
         op.update(mets=ms, single=rng.random() < 0.3)
+        if rng.random() < 0.08:
+            op.update(twice=True, single=False)
     elif k == "remove_metabolites":
         op.update(ms=sorted({mid() for _ in range(rng.randint(1, 2))}), destructive=rng.random() < 0.4,
                   via=rng.choice(["model", "met"]), single=rng.random() < 0.3)
@@ -1870,6 +1898,10 @@ def gen_op(rng, H, sw):
             op["bad_tail"] = rng.choice(["none", "float"])
         op.update(rs=rs, remove_orphans=rng.random() < 0.4, via=rng.choice(["model", "model", "rxn"]))
         op["as"] = rng.choice(["obj", "id", "mixed"])
+        if rids and rng.random() < 0.04:
+            op.pop("bad_tail", None)
+            op.update(own_list=True, rs=list(rids), via="model")
+            op["as"] = "obj"
     elif k == "set_objective":
         how = rng.choice(["id", "rxn", "index", "list", "dict", "expr", "optlang"])
         if how in ("expr", "optlang"):
@@ -1885,6 +1917,8 @@ def gen_op(rng, H, sw):
             items = [[r, rng.choice([1, -1, 2, 0.5, 0])] for r in sorted({rid() for _ in range(rng.randint(1, 2))})]
             if inv and H.detached:
                 items.append(["det:" + rng.choice(sorted(H.detached)), 1])
+            elif len(H.actors) > 1 and rng.random() < 0.3:
+                op["foreign_keys"] = rng.randint(1, 2)
         op.update(how=how, items=items)
     elif k == "set_direction":
         op["dir"] = rng.choice(["max", "min", "maximize", "minimize", "Max", "MIN"] + (["sideways"] if inv else []))
